@@ -6,6 +6,8 @@ import (
 	"fmt"
 	"os"
 	"sync"
+	"sync/atomic"
+	"time"
 
 	"github.com/bilibili/gengine/engine"
 
@@ -102,6 +104,14 @@ begin
   w = (z + 1) * 2 >= 4
   return w
 end
+rule "k5" "calls injected functions for as long as a plugin is being loaded" salience -5
+begin
+  n = 0
+  for i = 0; more(); i += 1 {
+    n = plus(n, 1)
+  }
+  return n
+end
 rule "k4" "strings and comparisons" salience 0
 begin
   p = "a" + "b"
@@ -117,7 +127,15 @@ end
 
 func runCold(s *Session) []obs.Event {
 	all := []obs.Event{{"ev": "session", "id": s.ID}}
-	api := map[string]interface{}{"plus": func(a, b int64) int64 { return a + b }}
+	// more(): k5 keeps calling functions while a plugin load is under way (plus a little longer), never otherwise
+	var loading, spins int64
+	api := map[string]interface{}{"plus": func(a, b int64) int64 { return a + b },
+		"more": func() bool {
+			if atomic.LoadInt64(&loading) == 1 {
+				return atomic.AddInt64(&spins, 1) < 3000000
+			}
+			return false
+		}}
 	p, err := engine.NewGenginePool(s.Min, s.Max, 1, coldText, api)
 	if err != nil {
 		fmt.Fprintf(os.Stderr, "driver: session %d: cold pool construction failed: %v\n", s.ID, err)
@@ -149,6 +167,25 @@ func runCold(s *Session) []obs.Event {
 					errs[i] = e.Error()
 				}
 			}(i, &st.Reqs[i])
+		}
+		if st.Plugin != "" {
+			// a plugin is hot-loaded into the pool (every instance's data context gets the exported symbol) while the
+			// requests are calling injected functions
+			atomic.StoreInt64(&loading, 1)
+			atomic.StoreInt64(&spins, 0)
+			wg.Add(1)
+			go func() {
+				defer wg.Done()
+				<-start
+				e := p.PluginLoader(st.Plugin)
+				time.Sleep(2 * time.Millisecond)
+				atomic.StoreInt64(&loading, 0)
+				if e != nil {
+					all = append(all, obs.Event{"ev": "cold_plugin", "err": e.Error()})
+				} else {
+					all = append(all, obs.Event{"ev": "cold_plugin", "err": ""})
+				}
+			}()
 		}
 		if st.Flips > 0 {
 			// a management goroutine sets the execution model (to the value it already has, so that nothing a
